@@ -10,7 +10,8 @@ TEXT = ('For every struct field of type CommandReader<_> in the crate: exactly o
         'a write site off the audio thread, and every function that writes a command writes it on every path that does not '
         'return an error (no state-dependent skipping); reader and writer of one command come from one command_writer_and_reader() '
         'call; CommandReader::read yields Some only when the triple buffer reports an update; newly inserted resources '
-        'are drained in the same callback; type-level compile_fail witnesses (no Clone, &mut receivers, Send+Copy payload) with compiling twins. The interleaving semantics of triple_buffer are trusted.')
+        'are drained in the same callback; type-level compile_fail witnesses (no Clone, &mut receivers, Send+Copy payload) with compiling twins. The interleaving semantics of triple_buffer are trusted.'
+        ' Writers kept in a collection are written through by their owner.')
 TECHNIQUE = 'MIR field-coverage / call-graph reachability / ordering rules + compile_fail witnesses'
 
 READER_FLOOR = 62
@@ -212,6 +213,23 @@ def run(ctx, R, tier):
                 'CommandWriter field %s is never written by a handle method: its setter is wired to another writer or missing'
                 % key, detail={'field': key, 'write_sites': len(sites)}, where=F.adts[adt]['file'])
 
+    # writers kept in a collection (one per send route): the collection is written through by some handle method
+    for path, a in sorted(F.adts.items()):
+        if a['kind'] != 'Struct':
+            continue
+        for f in a['variants'][0]['fields']:
+            if 'command::CommandWriter<' in f['ty'] and not f['ty'].startswith('command::CommandWriter<'):
+                hit = False
+                for b in F.bodies:
+                    if b.krate != 'kira' or b.path in osp or b.path in proc:
+                        continue
+                    for bb, t in b.calls():
+                        if (callee_path(t) or '') == 'command::CommandWriter::<T>::write' and ('.' + f['name']) in describe(b, t['args'][0], depth=10, at=bb) \
+                                and b.path.startswith(path + '::'):
+                            hit = True
+                R.check(hit, 'B.C07.cover', 'writer-collection:%s.%s' % (path, f['name']),
+                        'no handle method writes through the CommandWriters kept in %s.%s: the commands of those routes are never sent' % (path, f['name']),
+                        detail={'field': '%s.%s' % (path, f['name'])}, where=a.get('file'))
     pairing(F, R, readers, writers)
     guard(F, R)
     first(F, R)
